@@ -222,10 +222,14 @@ func H13_synmerge() {
 	if usesEmpty && vSkipKnown("C13-empty-lhs-term") {
 		return
 	}
-	s0 := vBuildInput(docs0, DefaultChunkMode, vBool("reopen0"), vP("in0.zap"))
+	s0 := vBuildInput(docs0, DefaultChunkMode, vParam("reopen", 1) == 1 && vBool("reopen0"), vP("in0.zap"))
 	s1 := vBuildInput(docs1, DefaultChunkMode, false, vP("in1.zap"))
 	d0, b0 := vDropBitmap("drop0_", sp0.nDocs)
-	d1, b1 := vDropBitmap("drop1_", sp1.nDocs)
+	var d1 *roaring.Bitmap
+	var b1 []bool
+	if vParam("drop1", 1) == 1 {
+		d1, b1 = vDropBitmap("drop1_", sp1.nDocs)
+	}
 	// expected: survivors renumbered
 	want := &sSynSpec{pairs: map[string]map[string][]sSynPair{}}
 	newNum := map[string]uint64{}
